@@ -199,6 +199,25 @@ CLAIMED = {
              "conversion. Queries within 1e-3 (barycentric / relative) of an edge, vertex, the origin or the "
              "surface are out of scope as the property says.",
         technique="Lean 4 proof (exhaustive rational model proved sound/complete/optimal) + model-as-oracle differential run"),
+    "C16": dict(
+        category="proof", design_ref="DESIGN.md 5 C16",
+        text="Lean 4 theorems over exact rationals: soundness of executable checkers that are run on the real "
+             "outputs of convex_hull, bounds, bounding_box_oriented / oriented_bounds / apply_obb, "
+             "bounding_sphere / minimum_nsphere and bounding_cylinder. An accepted hull has only input points as "
+             "vertices, is closed, consistently wound, encloses positive volume and has every input point at "
+             "most eps above every face plane; that region is convex (so the whole convex hull of the inputs is "
+             "inside) and a face wound inwards is rejected; accepted axis-aligned bounds are exact (all six "
+             "attained); an accepted oriented box transform maps every point into the reported extents and an "
+             "exactly orthonormal transform preserves all distances; an accepted sphere / cylinder contains "
+             "every point; an accepted minimality certificate (support points + convex weights) proves that "
+             "every enclosing ball has radius >= r - eps. Inputs: gaussian, lattice, clustered (spread 1e-2 .. "
+             "1e-6), flat, scaled, far, spherical, cylindrical, elongated clouds and non-convex meshes, as "
+             "PointCloud or mesh, moved rigidly; option combinations (normal=, ordered, angle_digits).",
+        note="Trusted: Lean kernel (+propext/Classical.choice/Quot.sound); qhull / scipy are certified per output, "
+             "not modelled; the certificate search (nnls) and the enumeration of support sets used to separate "
+             "'not minimal' from 'certificate not found' are harness code; 2D oriented bounds are not covered. "
+             "Known finding: minimum_nsphere is not minimal when the minimum ball has 2 or 3 support points.",
+        technique="Lean 4 proof (verified result checkers = translation validation of each output) + differential run"),
     "C17": dict(
         category="proof", design_ref="DESIGN.md 5 C17",
         text="Lean 4 theorems over a heap of mutable cells: a sound disjointness checker; the frame theorem (if the "
